@@ -120,6 +120,9 @@ pub fn human_rendering(sc: &Scenario) -> Vec<String> {
     if let Some(v) = &sc.val {
         h.push(format!("value: {v:?}"));
     }
+    if let Some(r) = &sc.real {
+        h.push(format!("real derived type family {} (sim/src/realfam.rs), value = gen(seed {:#x}, size {})", r.family, r.vseed, r.size));
+    }
     if let Some(d) = &sc.doc {
         h.push(format!("document ({}):", d.source));
         h.extend(d.text.lines().map(|l| format!("  | {l}")));
